@@ -17,8 +17,49 @@ import time
 import common as C
 import gen as G
 
-THEOREMS = ['dec_roundtrip', 'string_roundtrip', 'events_wellformed', 'parse_render', 'parse_render_ws',
-            'concat_docs', 'tojson_value', 'tojson_value_partial', 'truncation_errors_partial', 'roundtrip_events']
+THEOREMS = ['dec_roundtrip',
+            'string_roundtrip',
+            'events_wellformed',
+            'parse_render',
+            'parse_render_ws',
+            'concat_docs',
+            'tojson_value',
+            'tojson_value_partial',
+            'truncation_errors_partial',
+            'roundtrip_events',
+            'parse_total',
+            'parse_sound',
+            'render_skeleton',
+            'do_parse_docs_wellformed',
+            'do_parse_total',
+            'truncation_errors',
+            'truncation_int_exact',
+            'truncation_real_exact',
+            'truncated_last_document',
+            'single_byte_corruption_partial',
+            'fromiter_encoding_inverse',
+            'fromjson_is_fromiter_doc',
+            'fromjson_is_fromiter',
+            'fromjson_is_fromiter_dict',
+            'fromjson_is_fromiter_dupkeys_refuted',
+            'fromjson_of_tojson',
+            'tojson_wellformed',
+            'events_balanced',
+            'tojson_value_wide',
+            'frag15_in_frag15w',
+            'tojson_text_value',
+            'tojson_nonfinite_strings',
+            'fromjson_restores_nonfinite',
+            'tojson_nonfinite_default_refuted',
+            'tojson_value_char_outside_string_refuted',
+            'tojson_value_string_untagged_refuted',
+            'tojson_value_char_nd_refuted',
+            'tojson_uint64_as_int64',
+            'tojson_value_uint64_exact',
+            'tojson_value_uint64_refuted',
+            'structural_byte_replaced',
+            'structural_byte_deleted',
+            'nonstructural_byte_corruption_refuted']
 COQ_DIR = os.path.join(C.VERIF, 'c15', 'coq')
 COQ_LOGICAL = '-R %s/coq AwkV -R . AwkJson' % C.VERIF
 NEEDS_SAN = True
